@@ -2097,14 +2097,15 @@ GRend(int32 grid)
                     if (GRIup_attr_data(gr_ptr->hdf_file_id, attr_ptr) == FAIL)
                         HGOTO_ERROR(DFE_INTERNAL, FAIL);
                     attr_ptr->data_modified = FALSE;
+                } /* end if */
 
-                    /* check if the attribute was a new attribute */
-                    if (attr_ptr->new_at == TRUE) {
-                        if (Vaddtagref(GroupID, ATTR_TAG, (int32)attr_ptr->ref) == FAIL)
-                            HGOTO_ERROR(DFE_CANTADDELEM, FAIL);
-                        attr_ptr->new_at = FALSE;
-                    } /* end if */
-                }     /* end if */
+                /* check if the attribute was a new attribute (large attributes
+                   are written at GRsetattr time and are not 'modified' here) */
+                if (attr_ptr->new_at == TRUE) {
+                    if (Vaddtagref(GroupID, ATTR_TAG, (int32)attr_ptr->ref) == FAIL)
+                        HGOTO_ERROR(DFE_CANTADDELEM, FAIL);
+                    attr_ptr->new_at = FALSE;
+                } /* end if */
 
                 /* get the next global attribute in the tree/list */
                 if (NULL != (t2 = (void **)tbbtnext((TBBT_NODE *)t2))) /* get the next node in the tree */
